@@ -671,6 +671,12 @@ def generate():
         n_deser_access = len(re.findall(r'for_deserialization\.borrow', flat)) + len(re.findall(r'for_deserialization\|\{os_ipc\w*for_deserialization\.borrow', flat))
         out.append(f"def shape_takeChecked : Bool := {'true' if n_take == 2 else 'false'}  -- channels (shared by senders and receivers), regions")
         out.append(f"def shape_shmEmptySentinel : Bool := {'true' if 'ifindex==usize::MAX{Ok(IpcSharedMemory::empty())}' in flat and '}else{usize::MAX}.serialize(serializer)' in flat else 'false'}")
+        # what embedding an endpoint in a message does to the program's handle (C03 / C19 / C04): a sender is cloned for the message,
+        # a receiver is moved into it (whatever happens to the send afterwards), a region is cloned
+        mv = ('os_ipc_channels_for_serialization.push(OsIpcChannel::Sender(os_ipc_sender.clone()));' in flat
+              and 'os_ipc_channels_for_serialization.push(OsIpcChannel::Receiver(os_receiver.consume()));' in flat
+              and 'os_ipc_shared_memory_regions_for_serialization.push(os_shared_memory.clone());' in flat)
+        out.append(f"def shape_embedClonesSenderMovesReceiver : Bool := {'true' if mv else 'false'}")
         out.append("")
     run_unit('GenIpc', unit_ipc)
     def unit_async(out):
